@@ -205,7 +205,26 @@ func (s *Sim) checkDeliver(ctx *StepCtx) {
 	case "est":
 		x := ctx.Target
 		if causeOf(r) != causeAccepted {
-			s.violate("C08", "rsp.cause", "rsp:est-cause", "Establishment Response cause %d", causeOf(r))
+			if !(s.stepFaulted(ctx) && s.cfg.faultOn("dp")) {
+				s.violate("C08", "rsp.cause", "rsp:est-cause", "Establishment Response cause %d", causeOf(r))
+			}
+			// the data plane refused part of it: answering with an error is legitimate,
+			// provided the request leaves no trace
+			s.probe("est.rejected-under-fault", 1)
+			pre := sessByID(ctx.pre)
+			for _, y := range ctx.post.Sess {
+				if _, was := pre[y.LocalID]; !was {
+					s.violate("C08", "error.no-trace", "rsp:error-left-session",
+						"Establishment answered with cause %d, yet the UPF now holds session UP %#x (CP %#x)", causeOf(r), y.LocalID, y.RemoteID)
+				}
+			}
+			for k := range s.kern.rules {
+				if _, was := pre[k.SEID]; !was && m.sess[k.SEID] == nil {
+					s.violate("C08", "error.no-trace", "rsp:error-left-rules",
+						"Establishment answered with cause %d, yet the data plane holds %v", causeOf(r), k)
+				}
+			}
+			break
 		}
 		s.checkNodeID(r)
 		if !r.HasSEID || r.SEID != in.CPSEID {
@@ -259,8 +278,15 @@ func (s *Sim) checkIsolation(ctx *StepCtx) {
 	for _, x := range ctx.Ended {
 		allowed[x.UP] = true
 	}
+	freshOK := ctx.Target != nil && ctx.Target.UP == 0 && ctx.Dg != nil && ctx.Dg.Intent != nil && ctx.Dg.Intent.T == "est"
+	preLive := sessByID(ctx.pre)
 	for _, r := range ctx.Reqs {
 		if r.Conn != "main" {
+			continue
+		}
+		if _, was := preLive[r.Key.SEID]; freshOK && !was && s.model.sess[r.Key.SEID] == nil && r.Op != "multi" {
+			// an Establishment that was answered with an error: the SEID it worked under
+			// is not on the wire; any SEID that was and is nobody's is its own
 			continue
 		}
 		keys := []RuleKey{r.Key}
@@ -460,6 +486,9 @@ func (s *Sim) checkProgress(why string) {
 		}
 		return false
 	}
+	// first let every outstanding transaction run out of retransmissions: what their
+	// time-outs set off belongs to the history being judged
+	s.mstepLite(func() { s.advance(time.Duration((s.cfg.MaxRetrans+2)*s.cfg.RetransMs) * time.Millisecond) })
 	// a prompt answer settles it; otherwise give the UPF ten simulated minutes
 	if answered(2*time.Second) || answered(10*time.Minute) {
 		// ... and periodic reporting is still alive: every period that has a URR
